@@ -76,3 +76,13 @@ package floodsub
 //@   requires s.m != nil
 //@   cs FloodSub.mtx ensures !(s.channelID in self.channels) || !(s in self.channels[s.channelID])
 //@   cs FloodSub.mtx ensures forall c string, sb *subscription trigger dom(self.channels[c], sb) :: (c in self.channels) && (sb in self.channels[c]) ==> old((c in self.channels) && (sb in self.channels[c]))
+
+// ---- C40 ----
+//@ func (*streamHandler).processPacket
+//@   noframe
+//@   requires s.m != nil
+//@ func (*streamHandler).readPump
+//@   noframe
+//@   nosweep nil-deref
+//@   requires s.m != nil
+//@   loop 1 invariant s.m != nil
